@@ -133,15 +133,22 @@ pub fn readonly_base(version: u16) -> Result<(Vec<u8>, BTreeMap<String, Vec<u8>>
     }
 }
 
-/// A read-only base whose FAT spans two sectors in V3 (more than 128 sectors): the directory and the
-/// small streams are laid down first, then a 70 000-byte stream, then one more stream behind it.
+/// A read-only base whose FAT spans two sectors in V3 (more than 128 sectors).  All directory
+/// entries are created first (the directory chain lies at the start of the file), then the contents
+/// are written last-to-first: eight streams of mixed sizes, two of them of exactly nine sectors, so
+/// that the FAT holds many chains and many end-of-chain cells on both sides of the sector boundary.
+const LARGE_STREAMS: [(&str, usize); 8] = [("/alpha", 30 * 1024), ("/beta", 4608), ("/gamma", 40 * 1024), ("/delta", 6656), ("/epsilon", 40 * 1024), ("/zeta", 4608), ("/eta", 20 * 1024), ("/small", 700)];
+
 pub fn readonly_base_large(version: u16) -> Result<(Vec<u8>, BTreeMap<String, Vec<u8>>), String> {
     let mut live = ops::Live::create(version)?;
     let mut truth = BTreeMap::new();
     let r = guarded(|| -> io::Result<()> {
-        for (p, n) in [("/first", 600usize), ("/mid", 5000), ("/huge", 70_000), ("/late", 4700)] {
-            let data = ops::pattern(ops::seed_of(p, n as u64, 11), n);
-            let mut s = live.comp.create_stream(p)?;
+        for (p, _) in LARGE_STREAMS {
+            live.comp.create_stream(p)?;
+        }
+        for (p, n) in LARGE_STREAMS.iter().rev() {
+            let data = ops::pattern(ops::seed_of(p, *n as u64, 11), *n);
+            let mut s = live.comp.open_stream(p)?;
             s.write_all(&data)?;
             s.flush()?;
             truth.insert(p.to_string(), data);
@@ -155,26 +162,18 @@ pub fn readonly_base_large(version: u16) -> Result<(Vec<u8>, BTreeMap<String, Ve
     }
 }
 
-/// Workloads on the large base: faults while the tables are loaded, then reads across the file.
+/// Workloads on the large base: faults while the tables are loaded, then every stream is read.
 pub fn readonly_workloads_large() -> Vec<(String, usize, Vec<WStep>)> {
     let mut v = Vec::new();
     for strict in [false, true] {
-        let s = vec![
-            WStep::Open { strict },
-            WStep::Walk,
-            WStep::OpenStream(0, "/huge".into()),
-            WStep::Read(0, 3000),
-            WStep::SeekStart(0, 66_000),
-            WStep::Read(0, 3000),
-            WStep::OpenStream(1, "/late".into()),
-            WStep::Read(1, 700),
-            WStep::Read(1, 4000),
-            WStep::OpenStream(2, "/mid".into()),
-            WStep::Read(2, 5000),
-            WStep::OpenStream(3, "/first".into()),
-            WStep::Read(3, 600),
-        ];
-        v.push((format!("two FAT sectors: open({}) + reads across the file", if strict { "strict" } else { "permissive" }), 1 << 20, s));
+        let mut s = vec![WStep::Open { strict }, WStep::Walk];
+        for (h, (p, n)) in LARGE_STREAMS.iter().enumerate() {
+            s.push(WStep::OpenStream(h, p.to_string()));
+            s.push(WStep::Read(h, 65536));
+            s.push(WStep::SeekStart(h, (*n as u64) / 2));
+            s.push(WStep::Read(h, 3000));
+        }
+        v.push((format!("two FAT sectors: open({}) + every stream read", if strict { "strict" } else { "permissive" }), 1 << 20, s));
     }
     v
 }
